@@ -1878,12 +1878,14 @@ fn fault_case(seed: u64, idx: u64, thorough: bool, stats: &mut Counts) -> Result
                 }
             }
             let mut candidates: Vec<Dump> = Vec::new();
+            let mut plain_candidates = 0usize; // the first `plain_candidates` entries do not contain the failed operation
             for j in must..=acked.len() {
                 let mut m = Model::default();
                 for i in &acked[..j] {
                     m.apply(&plan.ops[*i]);
                 }
                 candidates.push(model_dump(&m));
+                plain_candidates += 1;
                 if j == acked.len() {
                     if let Some(fe) = first_err {
                         let mut w = m.clone();
@@ -1905,7 +1907,18 @@ fn fault_case(seed: u64, idx: u64, thorough: bool, stats: &mut Counts) -> Result
                 return Err(Deviation::new("fault:reopen-panicked", format!("{what}: {e}")));
             }
             let got = parse_dump(reply.strip_prefix("ok ").unwrap_or("")).ok_or_else(|| Deviation::new("inconclusive:protocol", "bad dump"))?;
-            if !candidates.contains(&got) {
+            // manual journal persist: a memtable flush (bulk ingestion, worker flush) makes one keyspace's buffered-only
+            // writes durable through its tables while another keyspace's are still in the journal's buffer, so keyspaces
+            // may be at different allowed states; what must hold is that each keyspace is in the state of some allowed one
+            // (the failed operation itself stays all-or-nothing: only states without it are mixed per keyspace)
+            let plain = &candidates[..plain_candidates.min(candidates.len())];
+            let per_keyspace_ok = plan.manual
+                && plain.iter().any(|c| c.keys().collect::<BTreeSet<_>>() == got.keys().collect::<BTreeSet<_>>())
+                && got.iter().all(|(name, m)| plain.iter().any(|c| c.get(name) == Some(m)));
+            if per_keyspace_ok && !candidates.contains(&got) {
+                stats.inc("fault.reopen_verified_per_keyspace");
+            }
+            if !candidates.contains(&got) && !per_keyspace_ok {
                 return Err(Deviation::new(
                     "fault:state-after-reopen",
                     format!(
